@@ -30,10 +30,11 @@ DeclFor(r) == IF ConsumerOf(r) = "unit" THEN NoDeclines ELSE DeclOf(r.declines)
 ExpectedMask(r) == Expect(ConsumerOf(r), r.got.full.events, MaskFor(r), DeclFor(r))
 ExpectedRead(r, i) == Expect(ConsumerOf(r), Renumber(r.got.fulls[i].events, i), MaskFor(r), DeclFor(r))
 
-(* the class is readable in full, to its last byte *)
-MaskPre(r) == r.got.full.ok /\ r.got.full.rest = 0
+(* the class is readable in full (every class of the catalogue is exactly one class file: file_len = its length) *)
+MaskPre(r) == r.got.full.ok
 AcceptMask(r) ==
     MaskPre(r) =>
+        /\ r.got.full.rest = 0                                     \* the full visitor is a visitor too
         /\ r.got.masked.ok
         /\ r.got.masked.rest = 0                                   \* consumed = file length, whatever was skipped
         /\ Items(r.got.masked.events) = ExpectedMask(r)
@@ -60,10 +61,14 @@ Accept(r) ==
       [] r.op = "accept" -> AcceptReplay(r)
       [] OTHER -> FALSE
 
+(* what the specification expected, in the form of the vectors of MC_Visit (skeleton = events without digests) *)
 Expected(r) ==
-    CASE r.op = "mask" -> [masked |-> IF MaskPre(r) THEN ExpectedMask(r) ELSE <<>>]
-      [] r.op = "concat" -> [reads |-> IF ConcatPre(r) THEN [i \in DOMAIN r.got.fulls |-> ExpectedRead(r, i)] ELSE <<>>]
-      [] r.op = "accept" -> [replay_like_read |-> TRUE]
+    CASE r.op = "mask" -> IF MaskPre(r) THEN [skeleton |-> Skel(ExpectedMask(r)), masked |-> [ok |-> TRUE, rest |-> 0]] ELSE <<>>
+      [] r.op = "concat" ->
+            IF ConcatPre(r) THEN [oks |-> [i \in DOMAIN r.got.fulls |-> TRUE], behinds |-> [i \in DOMAIN r.got.fulls |-> 0],
+                                  skeletons |-> [i \in DOMAIN r.got.fulls |-> Skel(ExpectedRead(r, i))]]
+            ELSE <<>>
+      [] r.op = "accept" -> [read |-> [ok |-> TRUE], replay |-> [ok |-> TRUE], tree_equal |-> TRUE]
       [] OTHER -> <<>>
 
 Init == l = 1 /\ rej = 0
